@@ -9,7 +9,9 @@ import (
 	distrtypes "github.com/cosmos/cosmos-sdk/x/distribution/types"
 	"github.com/ethereum/go-ethereum/common"
 
+	"github.com/functionx/fx-core/v8/contract"
 	crosschaintypes "github.com/functionx/fx-core/v8/x/crosschain/types"
+	erc20types "github.com/functionx/fx-core/v8/x/erc20/types"
 
 	"verif/harness/sim"
 )
@@ -61,6 +63,25 @@ func base() *sim.Fixture {
 				if r := f.ExecuteClaim(ctx, f.Users[0], ch, nonce); !r.Success() {
 					panic(r)
 				}
+			}
+		}
+		// every user holds every token in both forms and has approved the crosschain precompile
+		maxU := new(big.Int).Lsh(big.NewInt(1), 200)
+		for _, u := range f.Users {
+			must := func(what string, ok bool) {
+				if !ok {
+					panic("base fixture: " + what)
+				}
+			}
+			must("convert usdt", f.RunMsg(ctx, &erc20types.MsgConvertCoin{Coin: sdk.NewCoin("usdt", sdkmath.NewInt(600e6)), Receiver: u.Hex().String(), Sender: u.Acc().String()}).OK())
+			must("convert ext", f.RunMsg(ctx, &erc20types.MsgConvertERC20{ContractAddress: ext.ERC20.String(), Amount: sdkmath.NewInt(400e6), Receiver: u.Acc().String(), Sender: u.Hex().String()}).OK())
+			must("wrap fx", f.RunMsg(ctx, &erc20types.MsgConvertCoin{Coin: sim.FxCoin(1000), Receiver: u.Hex().String(), Sender: u.Acc().String()}).OK())
+			for _, tk := range f.Tokens {
+				data, err := contract.GetFIP20().ABI.Pack("approve", sim.CrosschainAddr, maxU)
+				if err != nil {
+					panic(err)
+				}
+				must("approve "+tk.Name, f.EthTx(ctx, u, &tk.ERC20, nil, data, 500_000).Success())
 			}
 		}
 		baseFx = f
